@@ -130,8 +130,11 @@ type World struct {
 	Stdout  []byte
 	Stderr  []byte
 	TTY     bool // stdout is a terminal
-	nextFd  uintptr
-	Fired   map[string]int // fault kinds that fired
+	// StdoutKind: what stands behind standard output: "" or "pipe", "devnull",
+	// "file" (none of them a terminal), "tty"
+	StdoutKind string
+	nextFd     uintptr
+	Fired      map[string]int // fault kinds that fired
 	// NMeta counts non-mutating metadata operations (lstat, stat, fstat, open).
 	NMeta int
 	// ArmedReads counts reads of the main task while a signal handler listens.
@@ -720,6 +723,7 @@ func (w *World) Clone() *World {
 	c := NewWorld()
 	c.Umask = w.Umask
 	c.TTY = w.TTY
+	c.StdoutKind = w.StdoutKind
 	c.Stdin = w.Stdin
 	for k, n := range w.Nodes {
 		c.Nodes[k] = &Node{Data: append([]byte(nil), n.Data...), Mode: n.Mode, Target: n.Target}
@@ -759,6 +763,24 @@ func (w *World) LogLines() []string {
 		out = append(out, s)
 	}
 	return out
+}
+
+// StdKind names the kind of object behind a standard descriptor of the
+// simulated process (only standard output varies).
+func StdKind(fd uintptr) string {
+	w := world()
+	w.mu.Lock()
+	defer w.mu.Unlock()
+	if fd != 1 {
+		return "pipe"
+	}
+	if w.TTY {
+		return "tty"
+	}
+	if w.StdoutKind == "" {
+		return "pipe"
+	}
+	return w.StdoutKind
 }
 
 // IsTTY reports whether fd is a terminal in the current world.
